@@ -292,3 +292,13 @@ impl<T: Serialize + DeserializeOwned + Clone> SpillBuf<T> {
         Ok(out)
     }
 }
+
+/// First block the internal AES generator produces for `seed` (used to predict a challenge).
+pub fn aes_rng_first_block(seed: [u8; 16]) -> [u8; 16] {
+    use rand::{Rng, SeedableRng};
+    let mut r = crate::crypto::AesRng::from_seed(crate::block::Block::new(seed));
+    let b: crate::block::Block = r.random();
+    let mut out = [0u8; 16];
+    out.copy_from_slice(b.as_ref());
+    out
+}
